@@ -424,8 +424,28 @@ class OptimiserAnchors:
         t = self.decision['target']
         return [t] if t is not None else []
 
-    def arg_local(self, op):
-        """Root local an argument operand copies from (through temporaries)."""
+    def arg_local(self, op, scope='inner'):
+        """Root local an argument operand copies from (through temporaries).  A NAMED local that was given its value outside
+        the proposal loop is where the chase stops: `let score_start = score_current;` is a snapshot, not another name of the
+        running value (a named copy made inside the proposal loop is fresh at every proposal and is looked through).  For the
+        temperature, which is constant within an inner loop by design, the scope is the OUTER loop (`scope='outer'`): a copy made
+        once per inner loop is the schedule's value, a copy made before the loops is not."""
+        if isinstance(op, dict) and 'l' in op and not op.get('p'):
+            x = op['l']
+            inner = getattr(self, 'outer' if scope == 'outer' else 'inner', None) or getattr(self, 'inner', None)
+            ibody = set(inner['body']) if inner else None
+            for _ in range(12):
+                ds = [d for d in self.tr.defs.of(x)]
+                if len(ds) != 1 or ds[0][2] != 'assign' or ds[0][3]['r'] != 'use' or 'l' not in ds[0][3]['a'] or ds[0][3]['a']['p']:
+                    break
+                if self.body.local_name(x) and x not in self.body.args() and ibody is not None and ds[0][0] not in ibody:
+                    return x
+                x = ds[0][3]['a']['l']
+            o = self.tr.origin({'k': 'copy', 'l': x, 'p': []})
+            if o['o'] in ('local', 'arg') and not o['p']:
+                # (origin() may look through further single-definition copies: only if none of them is such a snapshot)
+                return o['l'] if o['l'] == x or not self.body.local_name(x) or ibody is None else x
+            return None
         o = self.tr.origin(op)
         if o['o'] in ('local', 'arg') and not o['p']:
             return o['l']
